@@ -121,7 +121,7 @@ pub fn parse_suffix(source: &str) -> Option<(LiteralBaseType, usize, &str)> {
     let bits = bits.parse::<usize>().ok()?;
 
     // Ignore hexadecimal Bits literals without `_` before the suffix.
-    if base_type == LiteralBaseType::Bits && value.starts_with("0x") && !value.contains('_') {
+    if base_type == LiteralBaseType::Bits && value.starts_with("0x") && !value.ends_with('_') {
         return None;
     }
     Some((base_type, bits, value))
